@@ -171,6 +171,8 @@ def judgeOp (g : Gen) (op : Op) (o : String) : Verdict :=
     -- excluded point of the theorems (`F.length + chunk < 2^64`): tagged so that it can be told apart
     (if U64 ≤ g.len + realChunk then .bad "[file-within-one-chunk-of-2^64] implementation panicked"
      else .bad "implementation panicked") else
+  if o.startsWith "clobbered" then
+    .bad "read_bytes_into did not append to the caller's buffer: the bytes already in it were lost" else
   if !(isErr o || o.startsWith "ok ") then .bad s!"unparsable output {o}" else
   match op with
   | .read off n =>
